@@ -595,7 +595,7 @@ def replica_walk(fx, exe, out_path, seed, records, profile=None):
             rets = [r for r in rets if not r.startswith("rng ")]
             if w.profile["utility"]:
                 v = rnd.choice(["0 1", "1 2", "3 4", "1 3"])
-                rets.append("rng " + " ".join([v] * 70))
+                rets.append("rng " + " ".join([v] * 400))
             c = rnd.random()
             if c < 0.35:
                 a = on_slot(0, rets + w.hooks("update", active, qlen), "update")
